@@ -90,7 +90,7 @@ def gen(seed: int, tier: str) -> dict[str, Any]:
     if rng.random() < 0.3:
         for _ in range(rng.choice([1, 2])):
             extra.append({"k": rng.choice(["oneshot", "registers", "raises", "plain"]), "first": rng.random() < 0.5})
-    return {"seed": seed, "tier": "S", "config": {"batch": 1}, "ops": ops, "issue_cbs": extra}
+    return {"seed": seed, "tier": "S", "config": {"batch": 1, "shadow": rng.random() < 0.25}, "ops": ops, "issue_cbs": extra}
 
 
 def run(plan: dict[str, Any]) -> dict[str, Any]:
@@ -159,6 +159,17 @@ def run(plan: dict[str, Any]) -> dict[str, Any]:
         tx.xknx.devices.async_add(sw_k)
         await rx.xknx.start()
         await tx.xknx.start()
+        if plan["config"].get("shadow"):
+            # a second installation handled by the same process: an XKNX object holding no key for GK (it has one for another
+            # address) sees plain traffic on GK / GU and sends a plain telegram to GK itself - before and while rx is judged
+            ob = D.Node(R, "ob", W.ia(5, 0, 9), {W.ga(0, 6, 1): rng.randbytes(16)}, {})
+            await ob.xknx.start()
+            for g_ in (GK, GU, GK):
+                ob.stub.deliver(W.cemi_ldata(W.L_DATA_IND, S1, g_, tpci_apci=W.gv_write_small(1)), "ob")
+            ob.xknx.telegrams.put_nowait(Telegram(destination_address=GroupAddress(GK),
+                                                  payload=GroupValueWrite(DPTArray((0x12, 0x34)))))
+            await asyncio.sleep(0.05)
+            R.extra_faults["second_installation_without_the_key_in_the_same_process"] += 1
         def on_send(raw, rec):
             c = W.parse_cemi_ldata(raw)
             if c["group"]:
